@@ -155,7 +155,9 @@ def standin_sampling(tier, seed):
     kinds = MODEL_KINDS if tier == "thorough" else MODEL_KINDS[:2]
     settings_list = [dict(n_iter=12, n_burn_in_iter=5), dict(n_iter=10, n_burn_in_iter=0), dict(n_iter=8, n_burn_in_iter=7),
                      dict(n_iter=20, n_burn_in_iter=None, n_burn_in_iter_frac=0.5),
-                     dict(n_iter=15, n_burn_in_iter=6, annealing=dict(do_annealing=True, initial_temperature=4.0, n_plateau=3, n_iter=6))]
+                     dict(n_iter=15, n_burn_in_iter=6, annealing=dict(do_annealing=True, initial_temperature=4.0, n_plateau=3, n_iter=6)),
+                     # a long chain (many more kept draws than any fixed-size buffer would hold)
+                     dict(n_iter=1500, n_burn_in_iter=100)]
     for kind, kw, n_ft in kinds:
         df, ids = person_cohort(seed, n_ft)
         data = Data.from_dataframe(df)
